@@ -26,6 +26,8 @@ const (
 	rvElemV   = 0xFFFC
 )
 
+const rtypeMsgBase = 0x2000000000
+
 const (
 	iObj = iota
 	iMt
@@ -143,6 +145,22 @@ func init() {
 		m, f := v.L[iMt], i.L[0]
 		return Val{T: rt, L: []string{v.L[iObj], m, f, allOnes64, app("RVClass", m, f), app("RVWidth", m, f), app("RVEClass", m, f), app("RVEWidth", m, f), app("RVTypeTag", m, f)}}
 	})
+	reg("(reflect.Value).NumField", func(vc *VC, fr *Frame, st *State, call *ssa.CallCommon, args []Val, rt types.Type) Val {
+		v := args[0]
+		vc.declareRVFuncs()
+		vc.oblige(st, "pre@reflect.Value.NumField", "struct", and(app("bvult", v.L[iMt], bvLit(64, rvElemV)), eq(v.L[iFld], allOnes64), eq(v.L[iCls], cls(clsStruct))), call.Pos(), vc.safetyProps)
+		n := vc.define("rvnf", sBV64, app("RVNumField", v.L[iMt]))
+		vc.assume(st.cond, and(app("bvsle", bvLit(64, 0), n), app("bvslt", n, bvLit(64, 1<<16))))
+		return Val{T: rt, L: []string{n}}
+	})
+	// Kind: only reflect.Slice (23) is told apart; every other class yields some other kind
+	reg("(reflect.Value).Kind", func(vc *VC, fr *Frame, st *State, call *ssa.CallCommon, args []Val, rt types.Type) Val {
+		v := args[0]
+		w := widthOf(rt)
+		other := vc.freshConst("rvkind", bvSort(w))
+		vc.assume(st.cond, not(eq(other, bvLit(w, 23))))
+		return Val{T: rt, L: []string{ite(and(not(eq(v.L[iMt], bvLit(64, rvInvalid))), eq(v.L[iCls], cls(clsSlice))), bvLit(w, 23), other)}}
+	})
 	setNum := func(want int, signed bool, store string) externFn {
 		return func(vc *VC, fr *Frame, st *State, call *ssa.CallCommon, args []Val, rt types.Type) Val {
 			v, x := args[0], args[1]
@@ -246,7 +264,11 @@ func init() {
 	reg("(reflect.Value).Type", func(vc *VC, fr *Frame, st *State, call *ssa.CallCommon, args []Val, rt types.Type) Val {
 		v := args[0]
 		vc.oblige(st, "pre@reflect.Value.Type", "valid", not(eq(v.L[iMt], bvLit(64, rvInvalid))), call.Pos(), vc.safetyProps)
-		id := vc.freshConst("rtype", sBV64)
+		// the type of a Value that views a whole message is identified by the message number (rtypeMsgBase+mt):
+		// equal types have equal identities, which is all reflect.Type's == observes here
+		fresh := vc.freshConst("rtype", sBV64)
+		vc.assume(st.cond, app("bvult", fresh, bvLit(64, rtypeMsgBase)))
+		id := vc.define("rtid", sBV64, ite(and(app("bvult", v.L[iMt], bvLit(64, rvElemV)), eq(v.L[iFld], allOnes64)), app("bvadd", bvLit(64, rtypeMsgBase), v.L[iMt]), fresh))
 		vc.rtypeOf[id] = v
 		return Val{T: rt, L: []string{bvLit(64, uint64(vc.w.tags.tagNamed("extern:reflect.rtype"))), id}}
 	})
@@ -285,6 +307,14 @@ func init() {
 		v := args[0]
 		vc.oblige(st, "pre@reflect.Value.Len", "slice", and(not(eq(v.L[iMt], bvLit(64, rvInvalid))), eq(v.L[iCls], cls(clsSlice))), call.Pos(), vc.safetyProps)
 		return Val{T: rt, L: []string{rvLenOf(vc, st, v)}}
+	})
+	// IsNil of a slice: unspecified, except that a nil slice is empty
+	reg("(reflect.Value).IsNil", func(vc *VC, fr *Frame, st *State, call *ssa.CallCommon, args []Val, rt types.Type) Val {
+		v := args[0]
+		vc.oblige(st, "pre@reflect.Value.IsNil", "slice", and(not(eq(v.L[iMt], bvLit(64, rvInvalid))), eq(v.L[iCls], cls(clsSlice))), call.Pos(), vc.safetyProps)
+		isnil := vc.freshConst("rvnil", sBool)
+		vc.assume(st.cond, imp(isnil, eq(rvLenOf(vc, st, v), bvLit(64, 0))))
+		return Val{T: rt, L: []string{isnil}}
 	})
 	reg("(reflect.Value).Index", func(vc *VC, fr *Frame, st *State, call *ssa.CallCommon, args []Val, rt types.Type) Val {
 		v, i := args[0], args[1]
